@@ -93,7 +93,7 @@ def gen_cases(rng, tier, ops):
                 if ops[n].get('inplace'):
                     sh = [(2, 3), (2, 1)][:len(classes)]
                 cases.append(gen_case(rng, n, ops, classes, [tuple(s) for s in sh]))
-        for _ in range(3600):
+        for _ in range(12000):
             cases.append(gen_case(rng, rng.choice(names), ops))
         return cases
     # thorough: per (operation, class tuple): every leading-shape pair with seeded mask representations,
@@ -138,7 +138,7 @@ def run(ctx, prop=PROP, check_values=False, gen=None, rule=None):
         'operations (%d incl. reflected, in-place, number/ndarray operand forms, Boolean operands, products, '
         'rotation constructors) x operand class tuples x leading-shape pairs from the 10-shape pool (incl. (), '
         'zero-length axes, incompatible pairs) x 6x6 mask representations x boundary value pools; quick = '
-        'corpus + one case per (operation, class tuple) + 3600 seeded samples; thorough = every shape pair x '
+        'corpus + one case per (operation, class tuple) + 12000 seeded samples; thorough = every shape pair x '
         '6 representations and 36 representation pairs on 4 shape pairs per (operation, class tuple); '
         'non-trivial = result partially masked' % len(ops))
     ctx.assumptions = [
@@ -149,7 +149,7 @@ def run(ctx, prop=PROP, check_values=False, gen=None, rule=None):
     if ctx.ensure_library():
         ctx.prove(['theories/Props/%s.v' % prop])
     cases = (gen or gen_cases)(ctx.rng, ctx.tier, ops)
-    terms, idx, bad = [], [], set()
+    terms, idx, bad, nsig = [], [], set(), {}
     for i, c in enumerate(cases):
         ref = cm.ref_mask(c, ops)
         impl = cm.run_impl(c, Pm, ops)
@@ -167,7 +167,13 @@ def run(ctx, prop=PROP, check_values=False, gen=None, rule=None):
         tags = cm.judge(c, impl, ref, ops, check_values)
         if tags:
             bad.add(i)
-            ctx.fail(cm.signature(c, impl, tags), c, {'impl': impl, 'reference': ref, 'failed': tags})
+            sig = cm.signature(c, impl, tags)
+            known = lib.finding_for(ctx.prop, sig, ctx.findings) is not None
+            key = (sig['op'], sig['fail'])
+            nsig[key] = nsig.get(key, 0) + (0 if known else 1)
+            if known or nsig[key] <= 2:     # at most two replay files per (operation, failure kind)
+                ctx.fail(sig, c, {'impl': impl, 'reference': ref, 'failed': tags})
+            ctx.count('failing_cases')
         t = cm.coq_case(c, ops)
         if t is not None and impl['kind'] != 'build-exc':
             terms.append('(%s, %s)' % (t, cm.coq_obs(impl)))
@@ -193,7 +199,8 @@ def run(ctx, prop=PROP, check_values=False, gen=None, rule=None):
                           'model': shown}
             else:
                 detail = {'n_mismatch': len(unexplained), 'kernel_case': terms[j]}
-            ctx.broken_tie('correspondence', 'model-vs-impl', detail)
+            # a distinct name: explained mismatches must never hide unexplained ones in finish()
+            ctx.broken_tie('correspondence', 'model-vs-impl-unexplained', detail)
     ctx.cov['correspondence_mismatches'] = len(mism or [])
     ctx.cov['kernel_class_observations'] = len(kern_terms)
     ctx.exhaustive = (ctx.tier == 'thorough')
